@@ -134,10 +134,53 @@ def _scan_locate(fn):
     return ev
 
 
+def _body(fn):
+    """Statements of a function body (docstring dropped), unparsed."""
+    tree = ast.parse(textwrap.dedent(inspect.getsource(getattr(fn, "__wrapped__", fn))))
+    f = tree.body[0]
+    return [_src(st) for st in f.body
+            if not (isinstance(st, ast.Expr) and isinstance(st.value, ast.Constant) and isinstance(st.value.value, str))]
+
+
+def _section_tables():
+    """The sections of the INSTALLED isort, and what `is_in_stdlib` makes of each of them (evaluated:
+    `place_module` replaced by a constant function per section)."""
+    from unittest import mock
+
+    from isort import sections
+    import rattr.module_locator.util as U
+
+    names = list(sections.DEFAULT)
+    consts = sorted(v for k, v in vars(sections).items() if k.isupper() and isinstance(v, str))
+    assert sorted(names) == consts, (names, consts)
+    rows = []
+    for sec in names:
+        with mock.patch.object(U, "place_module", lambda name, _s=sec: _s):
+            rows.append((sec, bool(U.is_in_stdlib.__wrapped__("zz_some_module"))))
+    from isort.api import place_module
+    samples = [(n, str(place_module(n))) for n in ("__future__", "os", "os.path", "collections.abc", "sys",
+                                                   "zz_no_such_module", ".relative")]
+    # FIRSTPARTY is what a module found under isort's src_paths (the cwd of the process at the time isort is
+    # imported: the project dir for `python -m rattr`) gets
+    import tempfile
+    from pathlib import Path
+    from isort.settings import Config as IsortConfig
+    with tempfile.TemporaryDirectory() as d:
+        (Path(d) / "lm0.py").write_text("x = 1\n")
+        cfg = IsortConfig(src_paths=(Path(d),))
+        samples.append(("lm0 (a module in src_paths)", str(place_module("lm0", config=cfg))))
+        (Path(d) / "keyword.py").write_text("x = 1\n")
+        samples.append(("keyword (also a module in src_paths)", str(place_module("keyword", config=cfg))))
+    pip_src = inspect.getsource(getattr(U.is_in_pip, "__wrapped__", U.is_in_pip))
+    return names, rows, samples, ("place_module" in pip_src or "is_in_stdlib" in pip_src)
+
+
 def tables():
     import rattr.analyser.file as F
     import rattr.results._find_call_target as R
     import rattr.module_locator._locate as L
+    import rattr.module_locator.util as U
+    _SEC = _section_tables()
     from rattr.config import Config
     import impl
 
@@ -155,6 +198,16 @@ def tables():
         f"def bfsLadder : List String := {llist(_scan_bfs(F.parse_and_analyse_imports))}",
         f"def resolveLadder : List String := {llist(_scan_resolve(R.resolve_import))}",
         f"def level0Gate : List String := {llist(gate)}",
+        "/-- `isort.sections.DEFAULT` of the installed isort: everything `place_module` can return -/",
+        f"def isortSections : List String := {llist(_SEC[0])}",
+        "/-- per section: the verdict of `is_in_stdlib` when `place_module` returns it (evaluated) -/",
+        "def stdlibOfSection : List (String × Bool) := " + llist(_SEC[1], lambda r: f"({lstr(r[0])}, {lbool(r[1])})"),
+        "/-- `place_module` of the installed isort on sample names -/",
+        "def placeSamples : List (String × String) := " + llist(_SEC[2], lambda r: f"({lstr(r[0])}, {lstr(r[1])})"),
+        "/-- does `is_in_pip` consult isort / `is_in_stdlib` at all? -/",
+        f"def isInPipConsultsIsort : Bool := {lbool(_SEC[3])}",
+        "/-- body of `is_in_stdlib` -/",
+        f"def isInStdlibBody : List String := {llist(_body(U.is_in_stdlib))}",
         "/-- `find_module_in_path`, statement by statement -/",
         f"def locateOps : List String := {llist(_scan_locate(L.find_module_in_path))}",
     ]
